@@ -1030,7 +1030,8 @@ func c20RSAParty() (*x509.Certificate, *rsa.PrivateKey) {
 }
 
 func c20BuildP7Enc(r *rng, g, iters int) *c20Inst {
-	alg := r.pick([]int{x509.EncryptionAlgorithmDESCBC, x509.EncryptionAlgorithmAES128GCM})
+	// DES-CBC (the default, the path that pads) three times out of four
+	alg := r.pick([]int{x509.EncryptionAlgorithmDESCBC, x509.EncryptionAlgorithmDESCBC, x509.EncryptionAlgorithmDESCBC, x509.EncryptionAlgorithmAES128GCM})
 	p7mu.Lock()
 	x509.ContentEncryptionAlgorithm = alg // set before the goroutines start, constant afterwards
 	p7mu.Unlock()
@@ -1042,14 +1043,42 @@ func c20BuildP7Enc(r *rng, g, iters int) *c20Inst {
 		c, k := sm2Party(i)
 		pcerts, pkeys = append(pcerts, c), append(pkeys, k)
 	}
-	inst := &c20Inst{calls: make([][]func() string, g)}
+	// The contents are ADJACENT records of ONE buffer (the usual way of cutting records out of a read buffer):
+	// call i of goroutine gi owns arena[off:off+len] and nothing else; its neighbours belong to other goroutines.
+	// Each record is separate data: enveloping it reads it, and must not write behind it (the capacity of the
+	// slice reaches to the end of the buffer).
+	type p7call struct{ kind, length, mode, nrec, who, off int }
+	params := make([][]p7call, g)
 	for gi := 0; gi < g; gi++ {
 		for i := 0; i < iters; i++ {
-			kind := r.intn(4)
-			content := r.bytes(r.pick([]int{0, 1, 7, 8, 9, 16, 100, 500}))
-			mode := r.pick([]int{sm2.C1C3C2, sm2.C1C2C3})
-			nrec := 1 + r.intn(nParties)
-			who := r.intn(nrec)
+			c := p7call{kind: r.intn(4), length: r.pick([]int{0, 1, 7, 8, 9, 13, 16, 100, 500}), mode: r.pick([]int{sm2.C1C3C2, sm2.C1C2C3})}
+			c.nrec = 1 + r.intn(nParties)
+			c.who = r.intn(c.nrec)
+			params[gi] = append(params[gi], c)
+		}
+	}
+	total := 0
+	for i := 0; i < iters; i++ { // records of different goroutines are neighbours
+		for gi := 0; gi < g; gi++ {
+			params[gi][i].off = total
+			total += params[gi][i].length
+		}
+	}
+	arena := append(r.bytes(total), bytes.Repeat([]byte{0x5a}, 24)...) // 24 bytes that belong to nobody
+	arena0 := append([]byte{}, arena...)
+	inst := &c20Inst{calls: make([][]func() string, g)}
+	inst.after = func() string {
+		if !bytes.Equal(arena, arena0) {
+			return "caller-memory-written"
+		}
+		return ""
+	}
+	for gi := 0; gi < g; gi++ {
+		for i := 0; i < iters; i++ {
+			c := params[gi][i]
+			kind, mode, nrec, who := c.kind, c.mode, c.nrec, c.who
+			content := arena[c.off : c.off+c.length]
+			want := arena0[c.off : c.off+c.length]
 			inst.calls[gi] = append(inst.calls[gi], func() string {
 				if kind == 0 {
 					der, err := x509.PKCS7Encrypt(content, []*x509.Certificate{rsaCert})
@@ -1061,7 +1090,7 @@ func c20BuildP7Enc(r *rng, g, iters int) *c20Inst {
 						return "BAD:own-envelope-rejected"
 					}
 					pt, err := p7.Decrypt(rsaCert, rsaKey)
-					if err != nil || !bytes.Equal(pt, content) {
+					if err != nil || !bytes.Equal(pt, want) {
 						return "BAD:recovered-content-differs"
 					}
 					return "rsa:" + hx(pt)
@@ -1075,7 +1104,7 @@ func c20BuildP7Enc(r *rng, g, iters int) *c20Inst {
 					return "BAD:own-envelope-rejected"
 				}
 				pt, err := p7.DecryptSM2(pcerts[who], pkeys[who], mode)
-				if err != nil || !bytes.Equal(pt, content) {
+				if err != nil || !bytes.Equal(pt, want) {
 					return "BAD:recovered-content-differs"
 				}
 				return "sm2:" + hx(pt)
